@@ -393,6 +393,72 @@ fn two_funded_calls_from_every_root_entry_point() {
     }
 }
 
+/// found missing by seed C05g: the funds list names one denomination twice (and a second denomination):
+/// the callee is told exactly the list that was attached, and holds exactly its total before it runs —
+/// or the call fails without running it
+fn funds_listing_a_denomination_twice() {
+    let mut w = world(2);
+    let u0 = sym_u128("bal_u", 0, BAL);
+    let ua = w.user.clone();
+    w.app.init_modules(|router, _, storage| router.bank.init_balance(storage, &ua, vec![coin(u0, "x"), coin(u(5), "y")]).unwrap());
+    let (k0, user) = (w.ks[0].clone(), w.user.clone());
+    let (f, g) = (sym_u128("f", 1, BAL), sym_u128("g", 1, BAL));
+    let shape = choose(3);
+    let funds: Vec<Coin> = match shape {
+        0 => vec![coin(f, "x"), coin(g, "x")],
+        1 => vec![coin(f, "x"), coin(u(2), "y"), coin(g, "x")],
+        _ => vec![coin(u(2), "y"), coin(u(3), "y"), coin(f, "x")],
+    };
+    let total_x = if shape == 2 { v(f) } else { add(v(f), v(g)) };
+    let total_y: u128 = [0, 2, 5][shape];
+    let look = Script::new().then(Step::QueryBalance { tag: "own_x".into(), addr: "@self".into(), denom: "x".into() }).then(Step::QueryBalance { tag: "own_y".into(), addr: "@self".into(), denom: "y".into() });
+    let via_instantiate = choose(2) == 1;
+    let before = snapshot(&w.app);
+    sc::trace_clear();
+    let r = catch(|| {
+        if via_instantiate {
+            w.app.instantiate_contract(1, user.clone(), &look, &funds, "n", None).map(|_| ())
+        } else {
+            w.app.execute_contract(user.clone(), k0.clone(), &look, &funds).map(|_| ())
+        }
+    });
+    let r = match r {
+        Ok(r) => r,
+        Err(p) => {
+            failure("no_panic", "panic", p);
+            return;
+        }
+    };
+    let trace = sc::trace_take();
+    let covered = decide(le(total_x, v(u0)));
+    match (r.is_ok(), covered) {
+        (true, true) => {
+            witness("twice_paid");
+            let e = &trace[0];
+            check_native("told_funds_are_the_attached_list", format!("{:?}", e.funds) == format!("{:?}", funds), || format!("{:?} vs {:?}", e.funds, funds));
+            let base_x = if via_instantiate { k(0) } else { w.bal[0] };
+            if let Some(b) = obs_num(e, "own_x") {
+                check("funds_credited_in_full_before_the_contract_runs", eq(v(b), add(base_x, total_x)));
+            }
+            if let Some(b) = obs_num(e, "own_y") {
+                check("funds_credited_in_full_before_the_contract_runs", eq(v(b), k(total_y)));
+            }
+            check("funds_moved", eq(v(balance(&w.app, &user, "x")), sub(v(u0), total_x)));
+        }
+        (false, false) => {
+            witness("twice_uncovered");
+            check_native("uncovered_funds_do_not_run_the_contract", trace.is_empty(), || format!("{} entries", trace.len()));
+            check_unchanged("failed_call_returns_funds", &w.app, &before);
+        }
+        (true, false) => {
+            check_native("uncovered_funds_fail_the_call", false, || format!("shape {}", shape));
+        }
+        (false, true) => {
+            check_native("covered_funds_succeed", false, || format!("shape {}: {:?}", shape, r.as_ref().err().map(|e| e.to_string())));
+        }
+    }
+}
+
 pub fn scenarios(_tier: &str) -> Vec<Scenario> {
     vec![
         Scenario::new(
@@ -402,6 +468,7 @@ pub fn scenarios(_tier: &str) -> Vec<Scenario> {
         ),
         Scenario::new("instantiate_sudo_migrate", &["instantiate", "sudo", "migrate"], other_entry_points),
         Scenario::new("submessage_sender_from_every_entry_point", &["callee_ran"], submessage_sender_from_every_entry_point),
+        Scenario::new("funds_listing_a_denomination_twice", &["twice_paid", "twice_uncovered"], funds_listing_a_denomination_twice),
         Scenario::new("two_funded_calls_from_execute_sudo_migrate", &["both_paid", "second_unpaid"], two_funded_calls_from_every_root_entry_point),
     ]
 }
